@@ -322,6 +322,21 @@ var c17Templates = []sim.Template{
 		return []*sim.Action{act("login", 0, v, "ok", "rm", "true"), act("dropsid", 0, -9, ""), act("faultnext", 0, -9, "", "op", op), act("visit", 0, -9, "", "route", "/public"),
 			act("visit", 0, -9, "", "route", "/protected/bare"), act("faultnext", 0, -9, "", "op", pickS(s.R, "Save", "AddRememberToken", "hash")), act("login", 1, v, "ok", "rm", "true")}
 	}},
+	{Name: "secret-typed-into-the-code-field", F: func(s *sim.Sim) []*sim.Action {
+		if !s.Cfg.Has("auth") || len(s.Cfg.TwoFA) == 0 {
+			return nil
+		}
+		kind := s.Cfg.TwoFA[s.R.Intn(len(s.Cfg.TwoFA))]
+		v := findAcct(s, func(u *world.User) bool {
+			return u.Confirmed && u.RecoveryCodes != "" && ((kind == "totp" && u.TOTPSecretKey != "") || (kind == "sms" && u.SMSPhone != "" && u.TOTPSecretKey == ""))
+		})
+		if v < 0 {
+			return nil
+		}
+		k := kind + "_validate"
+		return []*sim.Action{act("login", 0, v, "ok"), act(k, 0, -9, "wrongfield", "what", "recovery"), act(k, 0, -9, "wrongfield", "what", "password"), act(k, 0, -9, "ok"),
+			act(kind+"_remove", 0, -9, "wrongfield", "what", "recovery"), act(kind+"_remove", 0, -9, "wrongfield", "what", "password")}
+	}},
 	{Name: "all-secret-kinds", F: func(s *sim.Sim) []*sim.Action {
 		if !s.Cfg.Has("auth") {
 			return nil
@@ -344,7 +359,7 @@ func init() {
 	prof.W["confirm"], prof.W["recover_end"], prof.W["recover_start"], prof.W["admin_startconfirm"], prof.W["otp_add"], prof.W["regen"] = 8, 9, 6, 4, 8, 2
 	register(&Check{
 		ID: "C17", Level: "exploration",
-		Rule:  "mixed histories over all flows and module subsets (the C01 generator) with extra weight on near-valid submissions — a valid token followed by one stray character, a valid token in a URL with a broken percent-escape elsewhere — because those make a library log what it received. Secret ledger: every password the harness seeded or typed (incl. wrong ones), every OTP and recovery code shown or seeded, every remember cookie value plus its decoded token, nonce and std-base64 form, every mailed token in URL form, std-base64 form and decoded bytes (all >= 8 bytes). After every request: substring search of every changed/created stored field and new token row, and of every log line the request produced (shipped defaults.Logger); every stored password must be bcrypt-shaped; every mail carrying a token — including a string that was mailed before — must be addressed only to the addresses of every account that string was ever mailed for. distinct_nontrivial = distinct (action, class, log line shapes, fields changed) signatures.",
+		Rule:  "mixed histories over all flows and module subsets (the C01 generator) with extra weight on near-valid submissions — a valid token followed by one stray character, a valid token in a URL with a broken percent-escape elsewhere — because those make a library log what it received; a live recovery code or the password typed into the CODE field of the 2FA validate/remove pages. Secret ledger: every password the harness seeded or typed (incl. wrong ones), every OTP and recovery code shown or seeded, every remember cookie value plus its decoded token, nonce and std-base64 form, every mailed token in URL form, std-base64 form and decoded bytes (all >= 8 bytes). After every request: substring search of every changed/created stored field and new token row, and of every log line the request produced (shipped defaults.Logger); every stored password must be bcrypt-shaped; every mail carrying a token — including a string that was mailed before — must be addressed only to the addresses of every account that string was ever mailed for. distinct_nontrivial = distinct (action, class, log line shapes, fields changed) signatures.",
 		Units: func(t string) int { return tierN(t, 600, 25000) },
 		Run: func(c *RunCtx, unit int) {
 			if unit%100 == 0 {
